@@ -11,6 +11,9 @@
 // Part 3 (race pass, auxiliary): the same thread bodies free-running on the unrewritten /repo built with
 // -race (checks/c13race), started from here as a subprocess; every race report whose stack lies in martian
 // code is a violation.
+// Round 6 (AUDIT.md): groups that also hold an ordinary modifier which can fail (sequential family errmod + schedule
+// scenarios; an execution that cannot terminate is reported as errmod:conc:deadlock, a hanging race pass as
+// errmod:race:hang) and histories played by a client through a real martian.Proxy (family proxy, proxy.go).
 package main
 
 import (
@@ -26,6 +29,7 @@ import (
 	"sort"
 	"strconv"
 	"strings"
+	"sync"
 	"syscall"
 	"time"
 
@@ -88,6 +92,8 @@ type treeJob struct {
 	Guard    bool    // the alphabet also holds the wrong-method calls of the two handlers
 	Explicit [][]int // explicit histories instead of every sequence of length Len
 	FailQ    bool    // the alphabet also holds the queries whose client goes away after k bytes
+	Proxy    bool    // round 6: the history is played by a client through a real martian.Proxy (proxy.go)
+	Mode     int     // Proxy: how the client uses connections (proxyModes)
 }
 
 // failCuts: where the client of a failing query goes away, in bytes of the would-be report (n = its size).
@@ -149,7 +155,7 @@ func (j *treeJob) sigPrefix() string {
 
 // splitFamily splits a signature of an added family into the family prefix and the rest ("" for the original ones).
 func splitFamily(sig string) (fam, base string) {
-	for _, f := range []string{"variants:", "scope:", "guard:", "long:", "failq:"} {
+	for _, f := range []string{"variants:", "scope:", "guard:", "long:", "failq:", "errmod:", "proxy:"} {
 		if strings.HasPrefix(sig, f) {
 			return f, strings.TrimPrefix(sig, f)
 		}
@@ -165,7 +171,7 @@ func splitFamily(sig string) (fam, base string) {
 
 func filtersOf(t *scen.Node) []*scen.Node {
 	var out []*scen.Node
-	if t.Kind >= scen.KFilterT {
+	if t.Kind >= scen.KFilterT && t.Kind <= scen.KFilterTE {
 		out = append(out, t)
 	}
 	for _, k := range t.Kids {
@@ -219,6 +225,33 @@ func extJobs(tier string) []treeJob {
 		j.Cost = pow(j.nsyms(), j.Len)
 		jobs = append(jobs, j)
 	}
+	// errmod (round 6): groups that also hold an ordinary modifier which fails for the messages that ask for it
+	for _, t := range scen.ErrTrees(tier) {
+		// what is particular to this family happens within one exchange (what is evaluated behind a failure): the trees
+		// with larger alphabets get all histories of length 2 in quick
+		capHist := maxHist
+		if tier != "thorough" {
+			capHist = 8000
+		}
+		j := treeJob{Tree: t, Alpha: scen.AlphabetErr(t), Len: L, Family: "errmod"}
+		for j.Len > 2 && pow(j.nsyms(), j.Len) > capHist {
+			j.Len--
+		}
+		j.Cost = pow(j.nsyms(), j.Len)
+		jobs = append(jobs, j)
+	}
+	// proxy (round 6): histories played by a client through a real martian.Proxy; one scheduler execution each,
+	// which costs about proxyCost direct histories
+	for _, t := range scen.ProxyTrees(tier) {
+		for mode := range proxyModes {
+			j := treeJob{Tree: t, Alpha: scen.AlphabetProxy(t), Len: 3, Family: "proxy", Proxy: true, Mode: mode}
+			if tier == "thorough" && j.nsyms() <= 10 {
+				j.Len = 4
+			}
+			j.Cost = pow(j.nsyms(), j.Len) * proxyCost
+			jobs = append(jobs, j)
+		}
+	}
 	// long: runs of one plain message - N times, query, reset, N mod 3 times, (final query) - for every N up to a
 	// bound beyond the growth steps of a slice (1, 2, 4, 8, 16 ...; thorough: ... 128)
 	nmax := 20
@@ -255,6 +288,9 @@ func extJobs(tier string) []treeJob {
 	return jobs
 }
 
+// proxyCost: cost of one history through the proxy in units of one direct history (measured, see AUDIT.md).
+const proxyCost = 16
+
 func seqBounds(tier string) (maxN int, lenFor func(n int) int) {
 	if tier == "thorough" {
 		// histories of length 5 for trees of up to 3 nodes, length 4 for the (many) 4-node trees: the full
@@ -287,6 +323,26 @@ func seqJobs(tier string) []treeJob {
 			j.Index = len(jobs)
 			jobs = append(jobs, j)
 		}
+	}
+	if os.Getenv("C13_SKIP_R6") != "" {
+		// self-validation aid: the check as it was before round 6
+		var keep []treeJob
+		for _, j := range jobs {
+			if j.Family != "errmod" && j.Family != "proxy" {
+				keep = append(keep, j)
+			}
+		}
+		jobs = keep
+	}
+	if only := os.Getenv("C13_ONLY_FAM"); only != "" {
+		// development aid: only the jobs of one added family
+		var keep []treeJob
+		for _, j := range jobs {
+			if j.Family == only {
+				keep = append(keep, j)
+			}
+		}
+		jobs = keep
 	}
 	return jobs
 }
@@ -343,6 +399,9 @@ func histNames(j *treeJob, seq []int) []string {
 // runHistory executes one history on a fresh instance, checking every step. It returns the index of the
 // first failing step (len(seq) = the implicit final query) or -1.
 func runHistory(out *shardOut, j *treeJob, js []byte, pool *scen.Pool, seq []int, viaHTTP bool, states map[uint64]bool, initial string) int {
+	if j.Proxy {
+		return runProxyHistory(out, j, js, seq, viaHTTP, states, initial)
+	}
 	var h *scen.Harness
 	var err error
 	if viaHTTP {
@@ -356,7 +415,7 @@ func runHistory(out *shardOut, j *treeJob, js []byte, pool *scen.Pool, seq []int
 		if n > len(seq) {
 			n = len(seq)
 		}
-		return map[string]interface{}{"part": "seq", "tree": j.Tree.String(), "config": string(js), "history": histNames(j, seq[:n]), "symbols": append([]int(nil), seq[:n]...), "final_query": upto >= len(seq)}
+		return map[string]interface{}{"part": "seq", "family": j.Family, "tree": j.Tree.String(), "config": string(js), "history": histNames(j, seq[:n]), "symbols": append([]int(nil), seq[:n]...), "final_query": upto >= len(seq)}
 	}
 	if err != nil {
 		out.violate(rank, j.sigPrefix()+"configure:rejected", fmt.Sprintf("tree %s: configuration rejected or panicked: %v", j.Tree, err), nil)
@@ -419,8 +478,20 @@ func runHistory(out *shardOut, j *treeJob, js []byte, pool *scen.Pool, seq []int
 			pool.Tree = j.Tree
 			x, err := pool.Exchange(m, i+1, i)
 			if err == nil {
-				if err = h.Request(x); err == nil {
+				// a modifier error is expected exactly where the model says that an err modifier fails (round 6); the
+				// proxy goes on to the response modifiers after a request modifier error, so does the harness
+				wantReq, wantRes := scen.EvalErr(j.Tree, m)
+				err = h.Request(x)
+				if err != nil && wantReq && !strings.HasPrefix(err.Error(), "panic") {
+					out.Counters["seq_expected_modifier_errors"]++
+					err = nil
+				}
+				if err == nil {
 					err = h.Response(x)
+					if err != nil && wantRes && !strings.HasPrefix(err.Error(), "panic") {
+						out.Counters["seq_expected_modifier_errors"]++
+						err = nil
+					}
 				}
 			}
 			if err != nil {
@@ -645,7 +716,8 @@ type trafficEv struct {
 	X      *scen.Exchange
 	Req    span
 	Res    span
-	Err    string
+	Err    string // unexpected modifier error or panic
+	Exp    int    // modifier errors that the model expects (an err modifier fails for the message)
 }
 
 type queryEv struct {
@@ -712,9 +784,14 @@ func concBody(sc scen.Conc, run *concRun, spawn func(func()) func() bool, joinAl
 			}
 			joins = append(joins, spawn(func() {
 				for _, ev := range evs {
+					wantReq, wantRes := scen.EvalErr(sc.Tree, ev.X.Msg)
 					ev.Req.S = tick()
 					if err := h.Request(ev.X); err != nil {
-						ev.Err = err.Error()
+						if wantReq && !strings.HasPrefix(err.Error(), "panic") {
+							ev.Exp++
+						} else {
+							ev.Err = err.Error()
+						}
 					}
 					ev.Req.E = tick()
 					if sc.ReqOnly {
@@ -722,7 +799,11 @@ func concBody(sc scen.Conc, run *concRun, spawn func(func()) func() bool, joinAl
 					}
 					ev.Res.S = tick()
 					if err := h.Response(ev.X); err != nil {
-						ev.Err = err.Error()
+						if wantRes && !strings.HasPrefix(err.Error(), "panic") {
+							ev.Exp++
+						} else {
+							ev.Err = err.Error()
+						}
 					}
 					ev.Res.E = tick()
 				}
@@ -768,7 +849,7 @@ func concBody(sc scen.Conc, run *concRun, spawn func(func()) func() bool, joinAl
 			x.Remove()
 		}
 		for _, ev := range run.traffic {
-			vrt.Log("t%d x%d req%v res%v %s", ev.Thread, ev.X.ID, ev.Req, ev.Res, ev.Err)
+			vrt.Log("t%d x%d req%v res%v %s expected-errors=%d", ev.Thread, ev.X.ID, ev.Req, ev.Res, ev.Err, ev.Exp)
 		}
 		for _, ev := range run.resets {
 			vrt.Log("reset %v -> %d %s", ev.Span, ev.Code, ev.Err)
@@ -1009,7 +1090,16 @@ func concPart(out *shardOut, scs []scen.Conc, shard, nshards int, deadline time.
 		st := vrt.Explore(cfg, body, func(prefix []int, r *vrt.Result) bool {
 			out.Outcomes[r.Outcome]++
 			if r.Outcome != "ok" {
-				out.violate(10000, "conc:"+r.Outcome, fmt.Sprintf("scenario %s schedule %v: %s %s threads %+v", sc, r.ChoiceSeq(), r.Outcome, r.Panic, r.Threads),
+				sig := "conc:" + r.Outcome
+				if sc.Family != "" {
+					// e.g. errmod:conc:deadlock - a query / reset and a request inside a group with a failing modifier block each other
+					sig = sc.Family + ":" + sig
+				}
+				rank := 10000
+				if sc.Family != "" {
+					rank += len(sc.Tree.String()) + len(r.Choices) // the simplest scenario and schedule first
+				}
+				out.violate(rank, sig, fmt.Sprintf("scenario %s schedule %v: the execution cannot terminate (%s) %s threads %+v", sc, r.ChoiceSeq(), r.Outcome, r.Panic, r.Threads),
 					map[string]interface{}{"part": "conc", "scenario": sc.Name, "schedule": r.ChoiceSeq()})
 				nviol++
 				return nviol < 20
@@ -1056,11 +1146,64 @@ func concPart(out *shardOut, scs []scen.Conc, shard, nshards int, deadline time.
 // Part 3: race pass (subprocess on the unrewritten tree, built with -race)
 
 type raceResult struct {
+	Hang       *raceHang // the free-running pass stopped making progress (round 6)
 	Reports    []raceReport
 	Iterations int64
 	Scenarios  int64
 	Err        string
 	Seconds    float64
+}
+
+// raceHang: the free-running pass made no progress for raceStall inside one scenario (queries / resets and traffic
+// that block each other for good); the goroutine dump comes from SIGQUIT.
+type raceHang struct {
+	Scenario string
+	Dump     string
+}
+
+// raceStall: a scenario of the race pass is 50 / 300 runs of a few microseconds of work each (the whole pass of
+// about 100 scenarios takes 10-40 s quick, 1-3 min thorough, even on a loaded machine); no new scenario for this
+// long means the pass hangs.
+const raceStall = 4 * time.Minute
+
+type lockedBuf struct {
+	mu   sync.Mutex
+	b    bytes.Buffer
+	last time.Time // when the last "C13RACE scenario" line arrived
+	scen string
+	part []byte
+}
+
+func (l *lockedBuf) Write(p []byte) (int, error) {
+	l.mu.Lock()
+	defer l.mu.Unlock()
+	l.b.Write(p)
+	l.part = append(l.part, p...)
+	for {
+		i := bytes.IndexByte(l.part, '\n')
+		if i < 0 {
+			break
+		}
+		line := string(l.part[:i])
+		l.part = l.part[i+1:]
+		if strings.HasPrefix(line, "C13RACE scenario ") {
+			l.scen = strings.TrimPrefix(line, "C13RACE scenario ")
+			l.last = time.Now()
+		}
+	}
+	return len(p), nil
+}
+
+func (l *lockedBuf) progress() (time.Time, string) {
+	l.mu.Lock()
+	defer l.mu.Unlock()
+	return l.last, l.scen
+}
+
+func (l *lockedBuf) String() string {
+	l.mu.Lock()
+	defer l.mu.Unlock()
+	return l.b.String()
 }
 
 type raceReport struct {
@@ -1105,11 +1248,45 @@ func racePass(tier string) raceResult {
 	}
 	run := exec.Command(bin, tier, iters)
 	run.Env = append(os.Environ(), "GORACE=halt_on_error=0 exitcode=0 history_size=2")
-	var stdout, stderr bytes.Buffer
+	var stdout bytes.Buffer
+	stderr := &lockedBuf{last: time.Now()}
 	run.Stdout = &stdout
-	run.Stderr = &stderr
-	if err := run.Run(); err != nil {
-		rr.Err = fmt.Sprintf("race pass binary failed: %v\n%s", err, tail(stderr.String(), 4000))
+	run.Stderr = stderr
+	if err := run.Start(); err != nil {
+		rr.Err = fmt.Sprintf("race pass binary failed: %v", err)
+		return rr
+	}
+	waited := make(chan error, 1)
+	go func() { waited <- run.Wait() }()
+	var werr error
+	for done := false; !done; {
+		select {
+		case werr = <-waited:
+			done = true
+		case <-time.After(5 * time.Second):
+			if last, sc := stderr.progress(); time.Since(last) > raceStall {
+				// hang guard: goroutine dump (SIGQUIT), then make sure it is gone
+				mark := len(stderr.String())
+				run.Process.Signal(syscall.SIGQUIT)
+				select {
+				case <-waited:
+				case <-time.After(30 * time.Second):
+					run.Process.Kill()
+					<-waited
+				}
+				dump := stderr.String()
+				if mark < len(dump) {
+					dump = dump[mark:]
+				}
+				rr.Hang = &raceHang{Scenario: sc, Dump: dump}
+				rr.Reports = parseRace(stderr.String())
+				rr.Seconds = time.Since(start).Seconds()
+				return rr
+			}
+		}
+	}
+	if werr != nil {
+		rr.Err = fmt.Sprintf("race pass binary failed: %v\n%s", werr, tail(stderr.String(), 4000))
 		return rr
 	}
 	var sum struct{ Scenarios, Iterations int64 }
@@ -1263,12 +1440,23 @@ func main() {
 			maxExecs = v
 		}
 		c0 := cpuMillis()
+		var direct, proxied []treeJob
+		for _, j := range assign(jobs, n)[i] {
+			if j.Proxy {
+				proxied = append(proxied, j)
+			} else {
+				direct = append(direct, j)
+			}
+		}
 		if os.Getenv("C13_SKIP_SEQ") == "" {
-			seqPart(out, assign(jobs, n)[i], dl)
+			seqPart(out, direct, dl)
+		}
+		runtime.GOMAXPROCS(1) // baton passing: one P avoids cross-thread wake-ups
+		if os.Getenv("C13_SKIP_SEQ") == "" && os.Getenv("C13_SKIP_PROXY") == "" {
+			seqPart(out, proxied, dl)
 		}
 		c1 := cpuMillis()
 		if os.Getenv("C13_SKIP_CONC") == "" {
-			runtime.GOMAXPROCS(1) // baton passing: one P avoids cross-thread wake-ups
 			concPart(out, scs, i, n, dl, maxExecs)
 		}
 		out.Counters["cpu_ms_seq"] = c1 - c0
@@ -1360,6 +1548,19 @@ func main() {
 		fmt.Fprintln(os.Stderr, "C13 race pass did not run:", rr.Err)
 		rep.Incomplete = "race pass did not run: " + strings.SplitN(rr.Err, "\n", 2)[0]
 	}
+	if rr.Hang != nil {
+		// queries / resets and traffic of a scenario block each other for good in the free-running pass: the query never
+		// returns, so it loses whatever was recorded before it began
+		sig := "race:hang"
+		for _, sc := range scen.ConcScenarios("thorough") {
+			if sc.Name == rr.Hang.Scenario && sc.Family != "" {
+				sig = sc.Family + ":race:hang"
+			}
+		}
+		rep.Violate(sig, fmt.Sprintf("free-running pass (unrewritten tree): scenario %s made no progress for %v: its traffic, query and reset threads block each other; goroutines:\n%s", rr.Hang.Scenario, raceStall, blockedGoroutines(rr.Hang.Dump)),
+			map[string]interface{}{"part": "race", "scenario": rr.Hang.Scenario, "hang": true})
+		rep.Incomplete = "race pass stopped at a scenario that hangs"
+	}
 	for _, r := range rr.Reports {
 		if !r.Martian {
 			fmt.Fprintln(os.Stderr, "C13 race pass: race report without a martian frame (harness problem):\n"+r.Text)
@@ -1372,7 +1573,7 @@ func main() {
 	}
 	maxN, lenFor := seqBounds(tier)
 	var extTrees int64
-	for _, f := range []string{"variants", "scope", "filterkind", "guard", "long", "failq"} {
+	for _, f := range []string{"variants", "scope", "filterkind", "guard", "long", "failq", "errmod", "proxy"} {
 		extTrees += rep.Counter("fam_" + f + "_trees")
 	}
 	rep.Coverage["states"] = rep.Counter("seq_states") + rep.Counter("conc_distinct_histories")
@@ -1388,15 +1589,17 @@ func main() {
 	rep.Coverage["race_pass"] = map[string]interface{}{"scenarios": rr.Scenarios, "iterations": rr.Iterations, "reports": len(rr.Reports), "signatures": raceSigs, "seconds": rr.Seconds, "error": rr.Err}
 	rep.Coverage["exhaustive"] = rep.Incomplete == ""
 	fams := map[string]interface{}{}
-	for _, f := range []string{"variants", "scope", "filterkind", "guard", "long", "failq"} {
+	for _, f := range []string{"variants", "scope", "filterkind", "guard", "long", "failq", "errmod", "proxy"} {
 		fams[f] = map[string]int64{"trees": rep.Counter("fam_" + f + "_trees"), "histories": rep.Counter("fam_" + f + "_histories"), "cpu_ms": rep.Counter("cpu_ms_fam_" + f),
 			"trees_with_all_histories_of_length_2": rep.Counter("fam_" + f + "_trees_len2"), "trees_with_all_histories_of_length_3": rep.Counter("fam_" + f + "_trees_len3"), "trees_with_all_histories_of_length_4": rep.Counter("fam_" + f + "_trees_len4")}
 	}
 	rep.Coverage["added_families"] = fams
 	rep.Coverage["wrong_method_calls"] = rep.Counter("seq_wrong_method_calls")
 	rep.Coverage["failing_queries"] = rep.Counter("seq_failing_queries")
-	rep.Coverage["rule"] = "sequential: every numbered tree with <= n nodes x every sequence of exactly L symbols over the tree's alphabet (all routing x met/unmet decision paths as plain messages; API-marked messages per routing path that reaches a verifier, with all expectations unmet, and also all met when a pingback verifier is present; GET /verify; POST /verify/reset), checked step by step so every shorter history is covered as a prefix, plus one final query; extensions of a failing prefix are skipped. A history is non-trivial when some query in it (explicit or final) has an expected answer different from the fresh tree's. Added families (same enumeration, judged by the concrete reference model of scen/ext.go; counts in added_families): variants = every verifier kind in every listed parameterisation (header: value / presence only / lower-case name; query: value / presence only; url: host / scheme+host+path; pingback: path / scheme+host+path) alone, in a group and in either branch of a filter x the original alphabet plus every shape (wrong value, two values of which the second is wanted, wanted on one side only, empty value, other scheme, other path) x {rest unmet, rest met} x {plain, API}; scope = every listed tree with <= 3 nodes in which some node carries a scope (absent, request, response, both, empty list; every combination the kinds accept) and aggregating groups; filterkind = header / cookie / url-regex / url / method filters with verifiers in the true, else and both branches, the alphabet extended by responses that take the other branch than their request (header and cookie filters decide that from the response); guard = the alphabet extended by POST /verify, GET and PUT /verify/reset (405 + Allow, nothing changes); long = for every plain message m and every N up to the bound: m^N, query, reset, m^(N mod 3), query; failq = trees with one or two verifiers, the alphabet extended by GET /verify from a client that goes away after k bytes of the report (k = 0, 1, 25, half, all but the last byte; a judged complete query first measures the report), all histories of length 4: every later complete query must answer exactly the model's report as one valid JSON document. concurrent: every scenario in conc_scenarios_detail, each either over all interleavings of the rewritten lock operations (preemption_bound 0) or over all schedules up to the stated preemption bound."
-	rep.Coverage["bounds"] = fmt.Sprintf("sequential: all %d trees with <= %d nodes x all histories of length <= %d over the per-tree alphabet; added families: %d trees, all histories of the largest length <= %d that stays under the per-tree cap (see added_families; long: N <= %d); concurrent: %d scenarios explored over all interleavings of their lock operations (pairs of threads and small triples: traffic/query/reset) + %d scenarios (2-3 traffic threads x 1-2 exchanges, query thread, optional reset thread) explored over all schedules with at most 2 (quick) / 3 (thorough) preemptions; race pass: %d scenarios, %d free-running runs under -race", len(jobs)-int(extTrees), maxN, lenFor(maxN), extTrees, extLen(tier), map[bool]int{false: 20, true: 132}[tier == "thorough"], rep.Counter("conc_scenarios_all_interleavings"), rep.Counter("conc_scenarios_preemption_bounded"), rr.Scenarios, rr.Iterations)
+	rep.Coverage["expected_modifier_errors"] = rep.Counter("seq_expected_modifier_errors")
+	rep.Coverage["proxy_family"] = map[string]interface{}{"histories_each_one_scheduler_execution": rep.Counter("fam_proxy_histories"), "scheduler_points": rep.Counter("proxy_points"), "connection_modes": proxyModes}
+	rep.Coverage["rule"] = "sequential: every numbered tree with <= n nodes x every sequence of exactly L symbols over the tree's alphabet (all routing x met/unmet decision paths as plain messages; API-marked messages per routing path that reaches a verifier, with all expectations unmet, and also all met when a pingback verifier is present; GET /verify; POST /verify/reset), checked step by step so every shorter history is covered as a prefix, plus one final query; extensions of a failing prefix are skipped. A history is non-trivial when some query in it (explicit or final) has an expected answer different from the fresh tree's. Added families (same enumeration, judged by the concrete reference model of scen/ext.go; counts in added_families): variants = every verifier kind in every listed parameterisation (header: value / presence only / lower-case name; query: value / presence only; url: host / scheme+host+path; pingback: path / scheme+host+path) alone, in a group and in either branch of a filter x the original alphabet plus every shape (wrong value, two values of which the second is wanted, wanted on one side only, empty value, other scheme, other path) x {rest unmet, rest met} x {plain, API}; scope = every listed tree with <= 3 nodes in which some node carries a scope (absent, request, response, both, empty list; every combination the kinds accept) and aggregating groups; filterkind = header / cookie / url-regex / url / method filters with verifiers in the true, else and both branches, the alphabet extended by responses that take the other branch than their request (header and cookie filters decide that from the response); guard = the alphabet extended by POST /verify, GET and PUT /verify/reset (405 + Allow, nothing changes); long = for every plain message m and every N up to the bound: m^N, query, reset, m^(N mod 3), query; failq = trees with one or two verifiers, the alphabet extended by GET /verify from a client that goes away after k bytes of the report (k = 0, 1, 25, half, all but the last byte; a judged complete query first measures the report), all histories of length 4: every later complete query must answer exactly the model's report as one valid JSON document; errmod (round 6) = groups (plain and aggregating, nested, in filter branches) that also hold an ordinary modifier which returns an error for the messages that ask for it (header filter on X-Err around a header.Copy that cannot be carried out; scopes: both sides, request, response), verifiers before and after it, the alphabet extended by every subset of the sides on which the message makes that modifier fail: the verifiers behind a failing modifier are evaluated only in an aggregating group (documented at fifo.Group.SetAggregateErrors), the response modifiers run although the request modifiers returned an error (as in the proxy), a modifier error is accepted exactly where the model expects one; proxy (round 6) = the history is played by a client over a simulated TCP connection through a real martian.Proxy wired like cmd/proxy (API forwarder behind a servemux filter, httpspec stack, configurable modifier, /configure /verify /verify/reset on the API mux; upstream = synchronous round tripper), one scheduler execution per history on the default schedule, alphabet = every plain message, each also with the upstream round trip failing (502 made up by the proxy), a CONNECT whose target cannot be dialled (502 made up by the proxy), a real request to the proxy's own API per routing path (DELETE /configure, refused with 405), GET /verify and POST /verify/reset as real API requests (never counted themselves), x three ways of using connections (one keep-alive connection for everything; queries and resets on a second connection; a new connection per request). concurrent: every scenario in conc_scenarios_detail, each either over all interleavings of the rewritten lock operations (preemption_bound 0) or over all schedules up to the stated preemption bound."
+	rep.Coverage["bounds"] = fmt.Sprintf("sequential: all %d trees with <= %d nodes x all histories of length <= %d over the per-tree alphabet; added families: %d trees, all histories of the largest length <= %d that stays under the per-tree cap (see added_families; long: N <= %d; proxy: length 3, thorough 4 for alphabets of <= 10 symbols); concurrent: %d scenarios explored over all interleavings of their lock operations (pairs of threads and small triples: traffic/query/reset) + %d scenarios (2-3 traffic threads x 1-2 exchanges, query thread, optional reset thread) explored over all schedules with at most 2 (quick) / 3 (thorough) preemptions; race pass: %d scenarios, %d free-running runs under -race", len(jobs)-int(extTrees), maxN, lenFor(maxN), extTrees, extLen(tier), map[bool]int{false: 20, true: 132}[tier == "thorough"], rep.Counter("conc_scenarios_all_interleavings"), rep.Counter("conc_scenarios_preemption_bounded"), rr.Scenarios, rr.Iterations)
 	rep.Assumptions = []string{
 		"traffic is applied as the proxy applies it (martian context linked to the request, ModifyRequest then ModifyResponse on the configurable martianhttp.Modifier); no sockets are involved; API requests are marked through the context exactly like api.Forwarder does",
 		"original families: one parameterisation per verifier kind (status 200, header X-Vh: ok, method GET, url host, query qv=ok, failure message per node, pingback path), the header expectation toggled on request and response together, filters are querystring.Filter; the added families vary the parameterisation, the way an expectation is missed, the scope option and the filter kind on small trees (<= 3 nodes), not in combination with each other",
@@ -1404,6 +1607,8 @@ func main() {
 		"error messages are attributed to verifier kinds by their documented formats and to messages by a unique id= query parameter; order of errors in the answer is not constrained",
 		"sequential histories recycle request objects (hence martian contexts) between histories; every history runs on a freshly parsed configuration (the first history of each tree through the /configure handler, the others through parse.FromJSON + SetRequestModifier/SetResponseModifier)",
 		"schedule exploration interleaves at lock operations only (gosim) and has no partial-order reduction: the 3-4 thread scenarios are complete only up to a preemption bound (every added lock or API-exemption check in martian multiplies the interleavings, the scenario sizes are chosen for the repaired tree); unsynchronised accesses are the business of the auxiliary -race pass, which is a sampling of real schedules, not exhaustive",
+		"errmod family: the failing modifier is a header.Filter on X-Err: 1 around header.Copy from a header that does not exist into Content-Length; fifo.Group stops at the first failing child unless aggregateErrors is set (its documentation), a filter returns what the branch it ran returns; nothing is demanded about the error value itself",
+		"proxy family: the upstream of the proxy is a synchronous http.RoundTripper (it answers what the message says, fails for a failing round trip, serves API requests from the API mux as the Transport + API server of cmd/proxy would) and a dial function that always fails (CONNECT); the client checks the status it receives (200/500 from the origin, 502 made up by the proxy, 405 from /configure) and the number of upstream round trips per exchange, which are the premises of the model's evaluation of the response side; explored on the default schedule only (the client is sequential)",
 		"pingback.Verifier makes no HTTP call in this version (it watches traffic for a URL); its expectation is modelled as 'one error while no matching non-API request was seen since the last reset'",
 	}
 	rep.Finish()
@@ -1413,6 +1618,28 @@ func cpuMillis() int64 {
 	var ru syscall.Rusage
 	syscall.Getrusage(syscall.RUSAGE_SELF, &ru)
 	return (ru.Utime.Sec+ru.Stime.Sec)*1000 + int64(ru.Utime.Usec+ru.Stime.Usec)/1000
+}
+
+// blockedGoroutines keeps, of a goroutine dump, the goroutines with a martian frame (first frames only).
+func blockedGoroutines(dump string) string {
+	var out []string
+	for _, g := range strings.Split(dump, "\n\n") {
+		if !strings.HasPrefix(strings.TrimSpace(g), "goroutine ") || !strings.Contains(g, modPrefix) {
+			continue
+		}
+		lines := strings.Split(strings.TrimSpace(g), "\n")
+		var keep []string
+		for i, l := range lines {
+			if i == 0 || (!strings.HasPrefix(l, "\t") && len(keep) < 9) {
+				keep = append(keep, l)
+			}
+		}
+		out = append(out, strings.Join(keep, "\n  "))
+		if len(out) == 6 {
+			break
+		}
+	}
+	return tail2(strings.Join(out, "\n"), 3000)
 }
 
 func tail2(s string, n int) string {
@@ -1433,6 +1660,8 @@ func replay(path string) {
 			Desc   string
 			Replay struct {
 				Part     string
+				Family   string
+				Mode     int
 				Tree     string
 				Config   string
 				Symbols  []int
@@ -1446,7 +1675,7 @@ func replay(path string) {
 	switch r.Part {
 	case "seq":
 		for _, j := range seqJobs("thorough") {
-			if j.Tree.String() == r.Tree && j.Tree.JSON() == r.Config {
+			if j.Tree.String() == r.Tree && j.Tree.JSON() == r.Config && (r.Family == "" || (j.Family == r.Family && j.Mode == r.Mode)) {
 				out := &shardOut{Counters: map[string]int64{}, Outcomes: map[string]int{}}
 				j := j
 				fail := runHistory(out, &j, []byte(r.Config), &scen.Pool{}, r.Symbols, true, map[uint64]bool{}, strings.Join(scen.NewModel(j.Tree).Expected(), ","))
